@@ -125,4 +125,21 @@ TreeEdgesOK(G, r, pre, nodes, edges) ==
   /\ Len(edges) = Len(others)
   /\ \A k \in 1..Len(edges) :
         edges[k][2] = others[k] /\ HasEdge(G, edges[k]) /\ Acc(G, edges[k])
+
+\* C11: comps (a sequence of sequences of nodes) is the partition of the member
+\* set into strongly connected components of the unfiltered forward graph
+Plain(o, i) == [out |-> o, inn |-> i, dir |-> "out", rej |-> {}]
+MutualReach(g, u, v) == v \in Reach(g, u) /\ u \in Reach(g, v)
+SCCs(g, members) == {{v \in members : MutualReach(g, u, v)} : u \in members}
+Flatten(cs) == LET RECURSIVE Fl(_)
+                   Fl(k) == IF k > Len(cs) THEN <<>> ELSE cs[k] \o Fl(k + 1)
+               IN  Fl(1)
+IsSccPartition(g, members, comps) ==
+  LET flat == Flatten(comps) IN
+  /\ NoRepeat(flat)                                  \* every node in at most one component, once
+  /\ SeqSet(flat) = members                          \* ... and in at least one
+  /\ \A a \in 1..Len(comps) : comps[a] # <<>>
+  /\ \A u \in members, v \in members :
+        (\E a \in 1..Len(comps) : u \in SeqSet(comps[a]) /\ v \in SeqSet(comps[a]))
+           <=> MutualReach(g, u, v)
 =============================================================================
